@@ -776,13 +776,67 @@ Proof.
   apply rev_cons_eq in E. rewrite E. rewrite !removelast_last. reflexivity.
 Qed.
 
-(* the output is beside the source *)
-Lemma remove_txtpp_parent src out : remove_txtpp src = Some out -> parent out = parent src.
+(* the output is beside the source, PROVIDED the source's file name does not begin with two dots.
+   (Without the proviso this fails: for the name `...txtpp.a` the intermediate path ends in `..`, the
+   extension is then appended as a NEW component and out = parent src ++ [".."; ".a"].) *)
+Definition no_dotdot_prefix (src : lexpath) : Prop := forall d r, src <> d ++ [DOT :: DOT :: r].
+
+Lemma split_ext_prefix n : exists t, n = fst (split_ext n) ++ t.
 Proof.
-  unfold remove_txtpp, parent. destruct (negb (is_txtpp_file src)); [discriminate|].
-  destruct (lex_extension (lex_set_extension src [])) as [e|];
-    [destruct (str_eqb e TXTPP_EXT); [destruct (lex_extension src); [|discriminate]|]|];
-    intros H; inversion H; rewrite ?lex_set_extension_parent; reflexivity.
+  unfold split_ext. destruct (str_eqb n dotdot); [exists []; simpl; rewrite app_nil_r; reflexivity|].
+  destruct (last_dot n 0%nat None) as [[|i]|]; cbn [fst].
+  - exists []. rewrite app_nil_r. reflexivity.
+  - exists (skipn (S i) n). symmetry. apply firstn_skipn.
+  - exists []. rewrite app_nil_r. reflexivity.
+Qed.
+
+Lemma lex_set_extension_nil_shape (d : list str) (n : str) :
+  is_normal n = true -> lex_set_extension (d ++ [n]) [] = d ++ [fst (split_ext n)].
+Proof.
+  intros Hn. unfold lex_set_extension. rewrite rev_app_distr. simpl. rewrite Hn.
+  rewrite rev_involutive. reflexivity.
+Qed.
+
+Lemma lex_extension_some p e :
+  lex_extension p = Some e -> exists d n, p = d ++ [n] /\ is_normal n = true.
+Proof.
+  unfold lex_extension. destruct (rev p) as [|n r] eqn:E; [discriminate|].
+  destruct (is_normal n) eqn:Hn; [|discriminate]. intros _.
+  exists (rev r), n. split; [apply rev_cons_eq; exact E|exact Hn].
+Qed.
+
+Lemma lex_append_ext_parent (d : list str) (n : str) e :
+  is_normal n = true -> removelast (lex_append_ext (d ++ [n]) e) = d.
+Proof.
+  intros Hn. unfold lex_append_ext. rewrite rev_app_distr. simpl. rewrite Hn.
+  rewrite rev_involutive. apply removelast_last.
+Qed.
+
+Lemma remove_txtpp_parent src out :
+  no_dotdot_prefix src -> remove_txtpp src = Some out -> parent out = parent src.
+Proof.
+  intros Hnd. unfold remove_txtpp, parent. destruct (negb (is_txtpp_file src)); [discriminate|].
+  cbv zeta.
+  destruct (lex_extension (lex_set_extension src [])) as [e|] eqn:E1;
+    [destruct (str_eqb e TXTPP_EXT)|];
+    try (intros H; inversion H; rewrite ?lex_set_extension_parent; reflexivity).
+  destruct (lex_extension src) as [se|] eqn:E0; [|discriminate].
+  destruct (lex_extension_some _ _ E0) as (d & n & Hsrc & Hn). subst src. unfold name in *.
+  rewrite (lex_set_extension_nil_shape d n Hn) in *.
+  destruct (lex_extension_some _ _ E1) as (d1 & n1 & Heq & Hn1).
+  apply app_inj_tail in Heq. destruct Heq as [<- <-].
+  rewrite (lex_set_extension_nil_shape d _ Hn1).
+  assert (Hn2 : is_normal (fst (split_ext (fst (split_ext n)))) = true).
+  { destruct (is_normal (fst (split_ext (fst (split_ext n))))) eqn:Hs; [reflexivity|exfalso].
+    unfold is_normal in Hs. apply Bool.negb_false_iff in Hs. apply str_eqb_true in Hs.
+    destruct (split_ext_prefix n) as [t1 H1].
+    destruct (split_ext_prefix (fst (split_ext n))) as [t2 H2].
+    rewrite Hs in H2. apply (Hnd d (t2 ++ t1)). f_equal. f_equal.
+    rewrite H1 at 1. rewrite H2. reflexivity. }
+  rewrite removelast_last.
+  destruct se as [|b se']; intros H; inversion H.
+  - apply removelast_last.
+  - apply lex_append_ext_parent. exact Hn2.
 Qed.
 
 Section Facts.
@@ -841,10 +895,17 @@ Theorem pp_run_events first tn w out :
               (exists k, pp_run orc md base src first tn w = PpErr k w')) ->
   exists evs, extends w w' evs /\ Forall (ev_allowed (allowed_paths src out its)) evs.
 *)
-(* the statement holds as soon as the directory of the source is canonical (no `..` component; by
-   lex_normalize_normal this follows from `all_normal (parent src)`) *)
+(* the statement holds as soon as the directory of the OUTPUT is canonical (no `..` component; by
+   lex_normalize_normal this follows from `all_normal (parent out)`).
+   NOTE (statement changed with the new remove_txtpp): the earlier hypothesis
+   `lex_normalize (parent src) = parent src` is no longer sufficient, because `parent out` may differ from
+   `parent src`.  Counterexample (Build and InMemoryBuild, checked with Eval vm_compute):
+     src := ["...txtpp.a"] = [[46;46;46;116;120;116;112;112;46;97]], w := mkW [(src, File [])] [],
+     remove_txtpp src = Some [[46;46];[46;97]] = out (= [".."; ".a"]), parent src = [] is canonical, its = [],
+     pp_run orc Build [] src false true w = PpOk {| ...; w_log := [EWrite [[46;97]]] |},
+   and EWrite [".a"] is not on an allowed path ([out]). *)
 Theorem pp_run_events_weaker first tn w out :
-  lex_normalize (parent src) = parent src ->
+  lex_normalize (parent out) = parent out ->
   remove_txtpp src = Some out ->
   let its := match read_file (w_fs w) src with
              | Some raw => parse (mode_eqb md Clean) None (fst (take_valid (lines raw)))
@@ -860,7 +921,7 @@ Proof.
   - intros out' e Ho He. rewrite Hout in Ho. inversion Ho; subst out'.
     assert (Hw : wr_ev out e -> e = EWrite out).
     { intros Hwr. apply wr_ev_canonical; [exact Hwr|].
-      apply remove_txtpp_parent in Hout. unfold parent in Hout, Hcan. rewrite Hout. exact Hcan. }
+      exact Hcan. }
     assert (Ha : forall p, ev_path e = Some p -> p = out -> ev_allowed (allowed_paths src out its) e).
     { intros p Hp ->. unfold ev_allowed. rewrite Hp. left. reflexivity. }
     destruct md; simpl in He.
@@ -871,9 +932,46 @@ Proof.
   - intros raw d fol e ER Hin He. subst its. rewrite ER. eapply dir_ev_allowed; eauto.
 Qed.
 
-(* in particular for a canonical source path (no `..` component) *)
+(* in particular for a canonical source path (no `..` component) whose output is beside it.
+   NOTE (statement changed with the new remove_txtpp): the side condition `parent out = parent src` is new;
+   `all_normal src` alone is refuted by the counterexample above. *)
 Corollary pp_run_events_canonical first tn w out :
   all_normal src ->
+  parent out = parent src ->
+  remove_txtpp src = Some out ->
+  let its := match read_file (w_fs w) src with
+             | Some raw => parse (mode_eqb md Clean) None (fst (take_valid (lines raw)))
+             | None => [] end in
+  forall w', (pp_run orc md base src first tn w = PpOk w' \/
+              (exists d, pp_run orc md base src first tn w = PpHasDeps d w') \/
+              (exists k, pp_run orc md base src first tn w = PpErr k w')) ->
+  exists evs, extends w w' evs /\ Forall (ev_allowed (allowed_paths src out its)) evs.
+Proof.
+  intros Hn Hp. apply pp_run_events_weaker. rewrite Hp. apply lex_normalize_normal.
+  unfold parent. apply all_normal_removelast. exact Hn.
+Qed.
+
+(* the same with conditions on the SOURCE only: canonical, and its file name does not begin with `..`
+   (every ordinary name qualifies) *)
+Corollary pp_run_events_canonical_src first tn w out :
+  all_normal src ->
+  no_dotdot_prefix src ->
+  remove_txtpp src = Some out ->
+  let its := match read_file (w_fs w) src with
+             | Some raw => parse (mode_eqb md Clean) None (fst (take_valid (lines raw)))
+             | None => [] end in
+  forall w', (pp_run orc md base src first tn w = PpOk w' \/
+              (exists d, pp_run orc md base src first tn w = PpHasDeps d w') \/
+              (exists k, pp_run orc md base src first tn w = PpErr k w')) ->
+  exists evs, extends w w' evs /\ Forall (ev_allowed (allowed_paths src out its)) evs.
+Proof.
+  intros Hn Hnd Hout. apply pp_run_events_canonical; [exact Hn| |exact Hout].
+  apply remove_txtpp_parent; assumption.
+Qed.
+
+(* ... or with a condition on the output only *)
+Corollary pp_run_events_out_normal first tn w out :
+  all_normal out ->
   remove_txtpp src = Some out ->
   let its := match read_file (w_fs w) src with
              | Some raw => parse (mode_eqb md Clean) None (fst (take_valid (lines raw)))
